@@ -267,6 +267,7 @@ class Interp:
         self.ctx = ACtx(self)
         self.oracle_facts = None  # optional callable(expr, propname) -> value/NotImplemented for R4.7
         self.coverage = None  # set() of (rel, lineno, branch taken) when enabled
+        self.native_types = True  # False: interpret Expr.get_type / typesystem.Type methods from source
 
     # ------------------------------------------------------------------ module globals
     def module_global(self, rel, name):
@@ -517,7 +518,7 @@ class Interp:
     def e_Name(self, n, env, rel):
         if n.id in env:
             return env[n.id]
-        if n.id in PY_TYPES:
+        if n.id in PY_TYPES and n.id != "type":
             return TypeSet({PY_TYPES[n.id]})
         builtin = {
             "True": True, "False": False, "None": None, "NotImplemented": NotImplemented, "len": len, "abs": self.b_abs, "min": min, "max": max,
@@ -718,7 +719,7 @@ class Interp:
                 return obj._key[-1]
             if name == "is_complex":
                 return expr_is_complex(obj)
-            if name == "get_type":
+            if name == "get_type" and self.native_types:
                 return lambda: expr_type(obj)
             if name in ("reference",):
                 return lambda *a, **k: obj
@@ -737,6 +738,12 @@ class Interp:
             if name in obj.attrs:
                 return obj.attrs[name]
             return self.class_attr(obj.rel, obj.cls.name, name, obj, has_default, default)
+        if isinstance(obj, AType) and not self.native_types:
+            if name in ("kind", "param"):
+                return getattr(obj, name)
+            if name == "context":
+                return self.ctx
+            return self.class_attr("typesystem.py", "Type", name, obj, has_default, default)
         if isinstance(obj, AType):
             if name in ("kind", "bits", "param"):
                 return getattr(obj, name)
@@ -745,6 +752,8 @@ class Interp:
             if name == "asdtype":
                 return lambda: (None if obj.bits is None else _unsupported("numpy dtype"))
             raise Unsupported(f"Type.{name}")
+        if isinstance(obj, ClassRef):
+            return self.class_attr(obj.rel, obj.node.name, name, obj, has_default, default)
         if isinstance(obj, ModRef) and obj.kind == "module":
             return self.module_global(obj.name, name)
         if isinstance(obj, ModRef):
@@ -753,6 +762,10 @@ class Interp:
                 return TypeSet({full})
             if obj.name == "math" and hasattr(math, name):
                 return getattr(math, name)
+            if obj.name == "string":
+                import string as _string
+                if hasattr(_string, name):
+                    return getattr(_string, name)
             return ModRef("ext", full)
         if isinstance(obj, dict):
             if name == "get":
@@ -775,6 +788,10 @@ class Interp:
         for st in cls.body:
             if isinstance(st, ast.FunctionDef) and st.name == name:
                 decos = [dotted(d) or (dotted(d.func) if isinstance(d, ast.Call) else "") for d in st.decorator_list]
+                if "classmethod" in decos:
+                    return Closure(st, {}, self, rel, bound_self=ClassRef(rel, cls), cls=cls)
+                if "staticmethod" in decos:
+                    return Closure(st, {}, self, rel, cls=cls)
                 clo = Closure(st, {}, self, rel, bound_self=obj, cls=cls)
                 if "property" in decos:
                     return self.call(clo, [])
@@ -813,6 +830,10 @@ class Interp:
                 kwargs.update(self.eval(kw.value, env, rel))
             else:
                 kwargs[kw.arg] = self.eval(kw.value, env, rel)
+        if isinstance(fn, ClassRef) and fn.node.name == "Type" and fn.rel == "typesystem.py":
+            if len(args) != 3:
+                raise Unsupported("Type(...) arity")
+            return AType(args[1], args[2])
         if isinstance(fn, ClassRef):
             crel, cnode = fn.rel, fn.node
             obj = AObj(crel, cnode)
@@ -847,6 +868,8 @@ class Interp:
         return self.truth(v)
 
     def b_type(self, v):
+        if isinstance(v, AType):
+            return ClassRef("typesystem.py", self.repo.find("typesystem.py", "Type"))
         return TypeSet(pytypes_of(v) - ({"int"} if isinstance(v, bool) else set()))
 
     def b_isinstance(self, v, t):
